@@ -686,6 +686,9 @@ func ParseSInterP(buf string) frt.Tuple2[string, []string] {
 				res.WriteByte(c)
 				res.WriteByte(c2)
 			}
+		} else if c == '%' {
+			// the result is used as a fmt format: keep a literal percent.
+			res.WriteString("%%")
 		} else if c == '{' {
 			i++
 			vbeg := i
